@@ -106,6 +106,22 @@ def main(ctx, replay=None):
     report_monitor(ctx)
     cases = gen(ctx, quick)
     findings, cov, outs = rpclib.evaluate(ctx, binpath, cases)
+    # a finding has to reproduce: the case is executed again (up to twice) and the finding is kept only if the same
+    # kind of finding shows again; the client loop's event order is reconstructed from timestamps of two processes,
+    # and a loaded machine can make a single run ambiguous (seen once in eleven full runs of all checks)
+    kept, transient = [], []
+    for f in findings:
+        again = False
+        for t in range(2):
+            f2, _, _ = rpclib.evaluate(ctx, binpath, [json.loads(json.dumps(rpclib.clean(cases[f["case"]])))], tag="cf%d" % t)
+            if any(x["kind"] == f["kind"] for x in f2):
+                again = True
+                break
+        (kept if again else transient).append(f)
+    if transient:
+        ctx.notes.append("findings that did not reproduce when their case was executed again (not reported): %s"
+                         % [dict(case=f["case"], kind=f["kind"], what=f["what"]) for f in transient][:5])
+    findings = kept
     known = dict(vlib.load_known("C15"))
     concrete, known_hits = [], []
     for f in findings:
